@@ -109,7 +109,7 @@ def finish(res: Result, seed: int = 0) -> int:
     code = 2
   for f in kn:
     lines.append(f"KNOWN-FINDING: property={res.prop} {f.key()} :: {f.message} [{f.loc}]")
-  if new and code == 0:
+  if new:
     os.makedirs(rp_dir, exist_ok=True)
     for f in new:
       rp = os.path.join(rp_dir, hashlib.sha1(f.key().encode()).hexdigest()[:12] + ".json")
@@ -146,7 +146,7 @@ def finish(res: Result, seed: int = 0) -> int:
     "wall_s": round(wall, 3),
     "violations": len(new),
   }
-  if code != 2:
+  if True:
     with open(os.path.join(ev_dir, f"{res.prop}.json"), "w") as fh:
       json.dump(evidence, fh, indent=1, default=str)
   for ln in lines:
